@@ -215,7 +215,15 @@ def cases(chunk):
             if rng.random() < 0.6:
                 pts = [first]
                 for _ in range(n - 1):
-                    pts.append(_near(rng, pts[-1]))
+                    u = rng.random()
+                    if u < 0.2:
+                        # ties: the next fix at exactly the same longitude and latitude, at another height (a lift, a
+                        # vertical climb) ...
+                        pts.append([pts[-1][0], pts[-1][1], _clamp(pts[-1][2] + rng.choice([-1, 1]) * rng.uniform(5, 800), -1000.0, 10000.0)])
+                    elif u < 0.27:
+                        pts.append(list(pts[-1]))            # ... or the very same fix again
+                    else:
+                        pts.append(_near(rng, pts[-1]))
             else:
                 pts = [first] + [_point(rng) for _ in range(n - 1)]
             base = rng.choice(["geo", "geo", "ecef", "none"])
